@@ -284,7 +284,13 @@ pub fn run(o: &Opts) -> i32 {
                 }
             }
         }
-        for (cfg, win, adv, seq) in &plan {
+        for (i, (cfg, win, adv, seq)) in plan.iter().enumerate() {
+            // the auth-session table of a server is only pruned by a periodic task: start a fresh server
+            // (and fresh accounts) regularly so that memory and lookup time stay flat
+            if i > 0 && i % 20_000 == 0 {
+                w = World::new().await;
+                pool = Pool { accts: BTreeMap::new(), next_n: pool.next_n };
+            }
             let key = format!("{cfg}/{win}");
             let Some(a) = pool.get(&w, &key, cfg).await else { return false };
             let mut a2 = std::mem::replace(a, Acct { n: 0, name: String::new(), cfg: String::new(), clock: 0, codes: vec![] });
